@@ -245,10 +245,10 @@ def _totals(ctx) -> None:
 
 def run(ctx) -> None:
     ctx.explanation = EXPLANATION
-    _direction(ctx)
-    _instant_order(ctx)
-    _interval_new(ctx)
-    _totals(ctx)
+    ctx.step(_direction, ctx)
+    ctx.step(_instant_order, ctx)
+    ctx.step(_interval_new, ctx)
+    ctx.step(_totals, ctx)
     ivm, dm = pmod("interval"), pmod("datetime")
     sites = recon.sites_in(ivm, ["Interval.__new__", "Interval.__init__"]) + recon.sites_in(dm, ["DateTime.__sub__", "DateTime.__rsub__"]) \
         + recon.sites_in(pmod("date"), ["Date.__sub__", "Date.diff"])
